@@ -26,7 +26,6 @@ def missingTr (j : Json) (s : List Char) : Bool :=
 
 def knownField (name out : List Char) : List String :=
   (if out == ['_'] then ["KnownUnderscoreField"] else []) ++
-  (if out == "r#crate".toList || out == "r#super".toList then ["KnownRawCrateSuper"] else []) ++
   (if rawPassthrough name then ["KnownRawPassthrough"] else [])
 
 def knownType (out : List Char) : List String :=
@@ -44,7 +43,7 @@ def sanitizer (pos : Pos) (f : Tr → List Char → List Char) (known : List Cha
       let out := s.toList
       let ok := legal pos out
       pure (verdict ok (if ok then [] else known name out) (if ok then "" else s!"illegal identifier in {repr pos} position"))
-    | .error _ => pure (verdict false (if (known name m).contains "KnownRawCrateSuper" then ["KnownRawCrateSuper"] else []) "implementation did not return a string (panic?)")
+    | .error _ => pure (verdict false [] "implementation did not return a string (panic?)")
   let branch :=
     if rawPassthrough name then "raw" else
     if (stripMinus (stripRaw name)).1 then "neg" else
